@@ -318,7 +318,7 @@ def run(chk: lib.PropertyCheck, no_model=False) -> int:
     )
     if broken:
         for b in broken[:3]:
-            print('  broken tie:', json.dumps(_brief(b), default=str)[:1500])
+            print('  broken tie:', json.dumps(_brief(b), default=str)[:600])
     return exit_code
 
 
